@@ -120,6 +120,8 @@ def build_object(reg, d, built=None):
 def jsonable(v, depth=0):
     if isinstance(v, (str, int, bool)) or v is None:
         return v
+    if depth > 6:
+        return "<...>"
     if isinstance(v, (list, tuple)):
         return [jsonable(x, depth + 1) for x in v]
     if isinstance(v, dict):
